@@ -16,7 +16,7 @@ RULE = ("random lint-clean blackbox-free acyclic circuits (1-5 inputs, 1-8 gates
 EXPLANATION = ("Kleene soundness of the dual-rail gadgets proved for all gate types and arities over regenerated gate-type table; "
                "model tied to tx.ternary by correspondence; property decided per case by exhaustive certified simulation")
 SHARD = 12
-HASHSEEDS = {"quick": [0, 1], "thorough": [0, 1, 2, 3, 4, 5, 6, 7]}
+HASHSEEDS = {"quick": [0, 1], "thorough": [0, 1, 2, 3]}
 
 STRESS = ["a", "b", "g", "a_X", "b_X", "a_X_0", "g_X", "g_x_in_fi", "g_x_in_fi_0", "g_0_not_in_fi", "g_1_not_in_fi", "a_is_0", "a_is_1",
           "a_is_0_0", "a_is_1_0", "b_is_0", "b_is_1", "a_not_x", "b_not_x", "a_not_x_0", "a_X_is_0", "a_X_X", "g_X_X", "h", "h_X", "a_is_0_1"]
@@ -79,7 +79,7 @@ def gen_reject(rng):
 
 
 def generate(rng, tier):
-    n = 110 if tier == "quick" else 1500
+    n = 110 if tier == "quick" else 500
     return [gen_valid(rng, tier) for _ in range(n)] + [gen_reject(rng) for _ in range(max(8, n // 12))]
 
 
